@@ -159,6 +159,29 @@ template <class S> static void extremes(const std::vector<const SolSpec*>& sols)
   }
 }
 
+template <class S> static void strings() {
+  // hostile strings: empty, very long, separators only, embedded control bytes, as handle / solution / parameter / vector names
+  const std::string P = ST<S>::name();
+  std::vector<std::string> hs = {"", " ", std::string(100000, 'h'), std::string("a\0b", 3), "\n", "h\t1", std::string(300, '-'), "\xff\xfe"};
+  for (auto& h : hs) {
+    op<S>("masa_init with a hostile handle of length " + std::to_string(h.size()) + " <" + P + ">");
+    CAP.begin(); masa_init<S>(h, "euler_1d"); masa_select_mms<S>(h); masa_list_mms<S>(); masa_set_param<S>(h, S(1)); masa_get_param<S>(h);
+    std::vector<S> v(3, S(1)); masa_set_vec<S>(h, v); masa_get_vec<S>(h, v); CAP.end();
+    LOG.count("hostile_string_ops", 1);
+  }
+  conserve<S>("inits with hostile handles");
+  // hostile solution names take the fatal path: observed in a child / under try-catch, must not corrupt memory
+  for (auto& n : hs) {
+    op<S>("masa_init with a hostile solution name of length " + std::to_string(n.size()) + " <" + P + ">");
+    Outcome o = guarded([&] { masa_init<S>("hs", n); }, true);
+    std::string pad = std::string(200, ' ') + "Euler_1D" + std::string(200, '-');
+    Outcome o2 = guarded([&] { masa_init<S>("hs2", pad); }, false);
+    (void)o; (void)o2;
+    LOG.count("hostile_string_ops", 1);
+  }
+  conserve<S>("inits with hostile solution names");
+}
+
 template <class S> static void growth() {
   // memory in use after N further masa_init calls must not grow (plain build: the allocator's own counters)
   const std::string P = ST<S>::name();
@@ -190,6 +213,7 @@ int main(int argc, char** argv) {
   if (mode == "vectors" || mode == "small") { if (d) vectors<double>(r); else vectors<long double>(r); }
   if (mode == "carrays" || mode == "small") c_arrays(r);
   if (mode == "extremes") { if (d) extremes<double>(sols); else extremes<long double>(sols); }
+  if (mode == "strings") { if (d) strings<double>(); else strings<long double>(); }
   if (mode == "growth") { if (d) growth<double>(); else growth<long double>(); }
   LOG.count("api_operations", n_ops);
   end_ok();
